@@ -286,6 +286,12 @@ type interruptID struct{ n int64 }
 // enumerate runs the program fault-free and then with an interrupt at every (or a sample of) instruction position(s).
 // stats may be nil (minimisation).
 func enumerate(p *program, rng *core.Rng, st *core.Stats, stopAtFirst bool) detSummary {
+	return enumerateBudget(p, rng, st, stopAtFirst, nil)
+}
+
+// enumerateBudget is enumerate with an optional budget of faulted runs (minimisation); when it runs out the remaining
+// positions are skipped.
+func enumerateBudget(p *program, rng *core.Rng, st *core.Stats, stopAtFirst bool, budget *int) detSummary {
 	batteryInit()
 	var sum detSummary
 	cp, err := compileProgram(p)
@@ -351,6 +357,12 @@ func enumerate(p *program, rng *core.Rng, st *core.Stats, stopAtFirst bool) detS
 	}
 	sum.Positions = len(positions)
 	for _, n := range positions {
+		if budget != nil {
+			if *budget <= 0 {
+				break
+			}
+			*budget--
+		}
 		v, kinds := faultedRun(cp, n, N, k0, log0, rerunOK, st)
 		for _, k := range kinds {
 			if interesting[k] {
@@ -480,8 +492,32 @@ func faultedRun(cp *compiled, n, N int64, k0 string, log0 []string, rerunOK bool
 		return fail("verif-assertion", "%v", o.Assertion)
 	}
 	ie, ok := o.Err.(*goja.InterruptedError)
+	finishedFirst := false
 	if !ok {
-		return fail("not-interrupted-error", "the outermost call returned %s (%v), expected *InterruptedError", outcomeKind(o), o.Err)
+		// Legal alternative: the run ended by itself before the next poll of the flag (instruction n was its last one: an
+		// uncaught throw, or the last instruction of the last promise job) — exactly as if Interrupt had been called just
+		// after it returned.  Then the outcome and the whole log equal the fault-free ones, at most B instructions ran,
+		// and the interrupt is still pending: the next call must be interrupted with id before executing anything.
+		delta := total - (base + n) + 1
+		if outcomeKind(o) != k0 || !sameStrings(evStrings(s.events), log0) || delta > B || !goja.VerifState(r).Interrupted {
+			return fail("not-interrupted-error", "the outermost call returned %s (%v) after %d more instruction(s), expected *InterruptedError (fault-free outcome %s; flag still set: %v; log %v vs fault-free %v)",
+				outcomeKind(o), o.Err, delta, k0, goja.VerifState(r).Interrupted, evStrings(s.events), log0)
+		}
+		if why := gj.IdleProblem(r, true); why != "" {
+			return fail("not-idle", "after the run completed with the interrupt still pending: %s", why)
+		}
+		nev := len(s.events)
+		b := goja.VerifSteps(r)
+		o = gj.Call(func() (goja.Value, error) { return r.RunString("log('s:pending'); 1") })
+		ie, ok = o.Err.(*goja.InterruptedError)
+		if !ok || len(s.events) != nev || goja.VerifSteps(r) != b {
+			return fail("pending-interrupt-not-delivered", "the run ended before the flag was polled again; the next call returned %s (%v) after %d instructions, expected *InterruptedError immediately", outcomeKind(o), o.Err, goja.VerifSteps(r)-b)
+		}
+		finishedFirst = true
+		total = base + n // nothing ran after the cut as far as the bound monitor is concerned
+		if st != nil {
+			st.Inc("det:run_finished_before_next_poll")
+		}
 	}
 	if ie.Value() != any(id) {
 		return fail("wrong-value", "InterruptedError.Value() = %v, expected the id passed to Interrupt", ie.Value())
@@ -498,7 +534,7 @@ func faultedRun(cp *compiled, n, N int64, k0 string, log0 []string, rerunOK bool
 		}
 		if e.Step > base+n {
 			after++
-			if isHandlerEvent(e.S) {
+			if isHandlerEvent(e.S) && !finishedFirst {
 				return fail("handler-after-interrupt", "event %q was logged at instruction %d, after the interrupt issued before instruction %d", e.S, e.Step-base, n)
 			}
 		}
@@ -591,15 +627,16 @@ func normSrc(p *program) string {
 func minimizeProgram(p *program, monitor string, rng *core.Rng) *program {
 	cur := p
 	runs := 0
+	budget := 4000 // faulted runs over the whole minimisation
 	holds := func(q *program) bool {
-		if runs >= 200 {
+		if runs >= 200 || budget <= 0 {
 			return false
 		}
 		runs++
 		if _, err := goja.Compile("m.js", q.Main.Src, false); err != nil {
 			return false
 		}
-		s := enumerate(q, core.NewRng(1), nil, true)
+		s := enumerateBudget(q, core.NewRng(1), nil, true, &budget)
 		return s.Viol != nil && s.Viol.Monitor == monitor
 	}
 	mk := func(lines []string) *program {
@@ -610,7 +647,7 @@ func minimizeProgram(p *program, monitor string, rng *core.Rng) *program {
 		q.Main.Src = strings.Join(lines, "\n")
 		return q
 	}
-	for progress := true; progress && runs < 200; {
+	for progress := true; progress && runs < 200 && budget > 0; {
 		progress = false
 		for chunk := len(cur.Main.Lines) / 2; chunk >= 1 && runs < 200; chunk /= 2 {
 			for i := 0; i+chunk <= len(cur.Main.Lines) && runs < 200; {
@@ -653,6 +690,9 @@ func runDet(c *core.Ctx, p *program, pinned bool) core.Result {
 	}
 	v := sum.Viol
 	wit := p
+	if c.Replay {
+		fmt.Printf("first violation (before minimisation): %s: %s\n", v.Monitor, v.Detail)
+	}
 	if !pinned {
 		wit = minimizeProgram(p, v.Monitor, c.Rng)
 		if wit != p {
@@ -671,5 +711,8 @@ func runDet(c *core.Ctx, p *program, pinned bool) core.Result {
 	res.Detail = v.Detail
 	res.Signature = "det:" + v.Monitor + "|" + normSrc(wit)
 	res.Case = detCase{Program: wit, N: v.N, Total: sum.N, Monitor: v.Monitor, Baseline: sum.Log0}
+	if c.Replay {
+		fmt.Printf("signature=%s\n", res.Signature)
+	}
 	return res
 }
